@@ -14,6 +14,7 @@ pub mod c10;
 pub mod c11;
 pub mod c17;
 pub mod c18;
+pub mod c20;
 
 pub fn run(shard: &Shard) -> i32 {
     match shard.check.as_str() {
@@ -34,6 +35,7 @@ pub fn run(shard: &Shard) -> i32 {
         "c12" => ddprops::c12(shard),
         "c17" => c17::run(shard),
         "c18" => c18::run(shard),
+        "c20" => c20::run(shard),
         "c13" => ddprops::c13(shard),
         other => { eprintln!("unknown check {other}"); 2 }
     }
